@@ -134,6 +134,36 @@ def decWfItems3 : Items → Bool
   | .cons i r => decWfItems2 (.cons i .nil) && decWfItems3 r
 
 
+/-- the classes grow: what is in the class of `java_reads_arrays_and_payloads` is in the class with struct-typed fields -/
+theorem decWfItems3_of_2 : ∀ (is : Items), decWfItems2 is = true → decWfItems3 is = true
+  | .nil, _ => rfl
+  | .cons i r, hw => by
+    have hr : decWfItems2 r = true := by
+      cases i with
+      | chunk fs => simp only [decWfItems2, Bool.and_eq_true] at hw; exact hw.2
+      | payload m => simp only [decWfItems2, Bool.and_eq_true] at hw; exact hw.2
+      | typedef a b c => simp [decWfItems2] at hw
+      | optional a b c d => simp [decWfItems2] at hw
+      | array id el ew sh pad =>
+        cases el <;> cases ew <;> cases pad <;> simp only [decWfItems2, Bool.and_eq_true] at hw <;>
+          first | exact hw.2 | (simp at hw)
+    have h1 : decWfItems2 (.cons i .nil) = true := by
+      cases i with
+      | chunk fs => simp only [decWfItems2, Bool.and_eq_true] at hw ⊢; exact ⟨hw.1, trivial⟩
+      | payload m => simp only [decWfItems2, Bool.and_eq_true] at hw ⊢; exact ⟨hw.1, trivial⟩
+      | typedef a b c => simp [decWfItems2] at hw
+      | optional a b c d => simp [decWfItems2] at hw
+      | array id el ew sh pad =>
+        cases el <;> cases ew <;> cases pad <;> simp only [decWfItems2, Bool.and_eq_true] at hw ⊢ <;>
+          first | exact ⟨hw.1, trivial⟩ | (simp at hw)
+    have ih := decWfItems3_of_2 r hr
+    cases i with
+    | typedef a b c => simp [decWfItems2] at hw
+    | optional a b c d => simp [decWfItems2] at hw
+    | chunk fs => simp only [decWfItems3, h1, ih, Bool.and_self]
+    | payload m => simp only [decWfItems3, h1, ih, Bool.and_self]
+    | array id el ew sh pad => simp only [decWfItems3, h1, ih, Bool.and_self]
+
 /-! ### the serializer: `buf.put(x.toBytes())` for a struct-typed field -/
 
 mutual
